@@ -417,6 +417,50 @@ for ctype, body in bodies:
 '''
 
 
+CGI_STDIN_SCRIPT = r'''
+import sys, zlib
+sys.path.insert(0, sys.argv[1])
+import logging; logging.disable(logging.CRITICAL)
+from jsonrpclib.SimpleJSONRPCServer import CGIJSONRPCRequestHandler
+h = CGIJSONRPCRequestHandler()
+h.register_function(lambda s: [len(s), zlib.crc32(s.encode("utf-8"))], "digest")
+h.handle_request()
+sys.stdout.flush()
+'''
+
+
+def cgi_stdin(ctx, rng):
+    """The CGI entry point itself: the request arrives on stdin, CONTENT_LENGTH gives its length in BYTES, and the
+    script must not consume what follows it (RFC 3875, 4.2)."""
+    for arg in ("a", "é", "€" * 40, "\U0001F600" * 20, "x" * 2000 + "é"):
+        for trailer in (b"", b"\nTRAILING-BYTES-THAT-ARE-NOT-PART-OF-THE-REQUEST" * 3):
+            body = ('{"jsonrpc":"2.0","id":1,"method":"digest","params":["%s"]}' % arg).encode("utf-8")
+            env = dict(os.environ, PYTHONIOENCODING="utf-8", REQUEST_METHOD="POST", CONTENT_LENGTH=str(len(body)),
+                       CONTENT_TYPE="application/json-rpc")
+            case = {"part": "cgi-stdin", "arg_head": arg[:10], "arg_len": len(arg), "trailing_bytes": len(trailer)}
+            ctx.case(("cgi-stdin", arg[:10], len(arg), len(trailer)))
+            ctx.count("judged:cgi-stdin-requests")
+            ctx.cell("cgi-stdin", "multi-byte" if len(body) != len(body.decode("utf-8")) else "ascii",
+                     "trailer" if trailer else "exact")
+            try:
+                proc = subprocess.run([sys.executable, "-B", "-c", CGI_STDIN_SCRIPT, core.REPO], input=body + trailer,
+                                      capture_output=True, timeout=60, env=env)
+            except subprocess.TimeoutExpired:
+                ctx.violate("cgi-request-not-answered-within-60s", case, {})
+                continue
+            head, sep, payload = proc.stdout.partition(b"\n\n")
+            if not sep:
+                head, sep, payload = proc.stdout.partition(b"\r\n\r\n")
+            try:
+                reply = json.loads(payload.decode("utf-8"))
+            except ValueError:
+                ctx.violate("cgi-reply-not-json", case, {"stdout": proc.stdout[:300], "stderr": proc.stderr[-300:]})
+                continue
+            if reply.get("result") != digest(arg):
+                ctx.violate("cgi-body-read-by-characters-not-bytes" if trailer else "cgi-reply-wrong", case,
+                            {"reply": reply})
+
+
 def cgi(ctx, rng):
     args = ["é", "a", "€" * 100, "\U0001F600" * 50, "x" * 5000 + "é"]
     bodies = []
@@ -478,6 +522,8 @@ def run(ctx):
     schemes(ctx)     # (shards the scheme space itself)
     if ctx.mine(3):
         cgi(ctx, rng)
+    if ctx.mine(5):
+        cgi_stdin(ctx, rng)
     if ctx.shard in (4 % ctx.nshards, 5 % ctx.nshards, 6 % ctx.nshards) or not ctx.quick:
         straddle_bodies(ctx, rng, ctx.pick(1, 6) if ctx.shard != 4 % ctx.nshards else ctx.pick(2, 6))
 
